@@ -87,6 +87,8 @@ func runSolver(ctx context.Context, s Solver, file string, timeout int) (string,
 }
 
 type SolveOpts struct {
+	SkipPlainFirst bool // the short first stage on the plain script has already been run
+	FirstBudget    int  // seconds for SolveFirst (0: default 2)
 	Timeout    int // seconds per solver
 	Thorough   bool
 	ScratchDir string
@@ -96,6 +98,37 @@ var fileCounter int
 var fileMu sync.Mutex
 
 func Solve(script string, opts SolveOpts) *SolveResult { return SolveAided(script, "", "", opts) }
+
+// SolveFirst: only the short first stage (z3 5.1 on the plain query).
+func SolveFirst(script string, opts SolveOpts) *SolveResult {
+	fileMu.Lock()
+	fileCounter++
+	n := fileCounter
+	fileMu.Unlock()
+	file := filepath.Join(opts.ScratchDir, fmt.Sprintf("q%06d.smt2", n))
+	if err := os.WriteFile(file, []byte(script), 0644); err != nil {
+		return &SolveResult{Status: "error", Output: err.Error()}
+	}
+	defer os.Remove(file)
+	res := &SolveResult{Script: script}
+	t1 := opts.Timeout
+	if t1 > 2 {
+		t1 = 2
+	}
+	if opts.FirstBudget > 0 && opts.FirstBudget < t1 {
+		t1 = opts.FirstBudget
+	}
+	ctx := context.Background()
+	st, out, el := runSolver(ctx, solvers[0], file, t1)
+	res.Tried = append(res.Tried, fmt.Sprintf("%s:%s:%.2fs", solvers[0].Name, st, el))
+	res.Seconds = el
+	res.Status, res.Solver, res.Output = st, solvers[0].Name, out
+	if opts.Thorough && st == "unsat" {
+		secondOpinion(ctx, res, file, opts, 0)
+	}
+	finishValues(res)
+	return res
+}
 
 // SolveAided: aided is the same query plus hypotheses that are consequences of the others (instances of
 // quantified hypotheses): an answer on either script is an answer for the query.
@@ -135,7 +168,7 @@ func SolveAided(script, aided, ground string, opts SolveOpts) *SolveResult {
 		t1 = 2
 	}
 	for _, f := range []string{gfile, file, afile} {
-		if f == "" {
+		if f == "" || (f == file && opts.SkipPlainFirst) {
 			continue
 		}
 		nm := solvers[0].Name
